@@ -12,8 +12,8 @@ import (
 
 func init() {
 	register(&propDef{
-		ID:  "C02",
-		Run: ruleC02,
+		ID:          "C02",
+		Run:         ruleC02,
 		Explanation: "Decides absence of explicit and implicit flows from a sensitive leaf to the output in placeholder mode, inside the package (structural necessary condition of the two-run hyperproperty C02). Taint = every SSA value of the walker functions whose provenance is the parsed line (IN). (R1) every use of a tainted value is one of an enumerated set: type tests, nil tests, traversal of containers (iteration, element access, len of a container), the leading-'$' test (len compared with 0, byte 0 compared with '$'), handing the value on to a walker / the scalar step / the string choke point / the e-mail classifier, storing it into an output container or returning it (a raw pass-through, judged by C01-R2), pseudonymising or looking up a string that is a '$' field path or sits in a FieldName / Namespace position (not a sensitive literal by the statement), conversion to bytes only for the encryption call, and anything dominated by the selective-mode or encrypt-mode switch (outside C02). Any other use - length, slicing, indexing, hashing, formatting, comparison with a constant or with another value, use as a map key, storing into package state, appending to a key path - is reported with the instruction; because branch conditions are computed by such uses this also covers implicit flows; inside the e-mail classifier only length bounds against constants and the compiled constant pattern may look at the value, and its verdict is used only as a branch condition. (R2) the key-context classes take precedence: no call of the e-mail classifier can reach a return that yields a $date / $oid / $binary placeholder. (R3) every non-raw result of the scalar step is a constant, the replacement text, or the choke point applied to one of those. (R4) the pseudonym side table is write-only. NOT decided: flows through the standard library (that json.Marshal of a constant is constant), timing.",
 		RuleText:    "obligations = (instruction, tainted operand) pairs of the walker functions classified against the allowed-use table with guard atoms; classifier body; class-precedence path query; non-raw returns of the scalar step; side-table uses",
 	})
